@@ -1084,6 +1084,17 @@ pub fn proposal_extras(w: &mut World, _p: usize, g: usize, spec: &PropSpec) -> V
     let mut x = PropExtras::default();
     if let PropSpec::Template { t, q } = spec {
         match t {
+            12 => {
+                // add a device that does not support the extension type the group context carries
+                let epoch = w.groups[g].log.len() as u64;
+                let has = w.groups[g].records.get(&epoch).map(|r| crate::c13::ctx_has_extension(&r.ctx, 0xF001)).unwrap_or(false);
+                if has {
+                    if let Some(kp) = w.legacy_key_package(_p)? {
+                        w.stats.probe("template-legacy-device-by-reference");
+                        x.raw = Some(Arc::new(move |grp: &mut SimGroup| grp.propose_add(MlsMessage::from_bytes(&kp)?, vec![])));
+                    }
+                }
+            }
             10 | 11 => {
                 // add somebody with a key package that has expired / is not valid yet
                 let st = w.mem(*q, g).status.clone();
